@@ -122,7 +122,7 @@ Qed.
 (* requests that are not plain GETs never write an entry *)
 Theorem unrecognized_no_write q k : NoSetEntry (handle_unrecognized_method q k).
 Proof.
-  unfold handle_unrecognized_method; constructor; intros [|r]; [constructor|].
+  unfold handle_unrecognized_method; destruct (req_only_if_cached _); [constructor|]; constructor; intros [|r]; [constructor|].
   destruct (_ && _); [|constructor].
   unfold get_refs_clean; constructor; intros ans. apply invalidate_cache_nosetentry; constructor.
 Qed.
